@@ -1690,7 +1690,7 @@ def c08_cases(rng, tier, which, size=None):
             na, nfr = len(card.apdu_log), dev.n_commands
             if tier == "quick":
                 na, nfr = min(na, 40), min(nfr, 60)
-            R_max = 400           # (thorough: every position of the longest fault free run of these cards)
+            R_max = 150           # (thorough: every position of the fault free run of these cards up to 150)
             na, nfr = min(na, R_max), min(nfr, R_max)
             for j in range(nfr + 1):
                 yield base(d, "stop_positions", dead_from=j)
@@ -1810,7 +1810,7 @@ def plan_c08(tier):
                 {"which": [["responses", 42], ["stops_x", 90]]}]
     return ([{"which": [["activation", None], ["files", 40000], ["act_trunc", None]], "timeout": 1500}] +
             [{"which": [["files", 60000], ["stops_x", 1500]], "timeout": 1500} for _ in range(2)] +
-            [{"which": [["responses", 300], ["adaptive", 60]], "timeout": 1500} for _ in range(4)] +
+            [{"which": [["responses", 300], ["adaptive", 24]], "timeout": 1500} for _ in range(4)] +
             [{"which": [["responses", 300], ["big", 4000]], "timeout": 1500}])
 
 
